@@ -317,7 +317,8 @@ class PSyDataTrans(RegionTrans):
                     raise TransformationError(
                         f"Error in {self.name}: the region contains a "
                         f"statement that transfers control out of it (EXIT, "
-                        f"CYCLE, GOTO) or that is the target of a GOTO: "
+                        f"CYCLE, GOTO, RETURN) or that is the target of a "
+                        f"GOTO: "
                         f"'{cblock.debug_string().strip()}'")
 
         super().validate(node_list, my_options)
@@ -339,14 +340,15 @@ class PSyDataTrans(RegionTrans):
             are inside the CodeBlock.
         :param list[str] targets: the labels that GOTOs of the routine use.
 
-        :returns: whether the nodes contain a GOTO, a statement that is the \
-            target of a GOTO, or an EXIT or CYCLE that does not belong to a \
-            loop inside the region.
+        :returns: whether the nodes contain a GOTO, a RETURN, a statement \
+            that is the target of a GOTO, or an EXIT or CYCLE that does not \
+            belong to a loop inside the region.
         :rtype: bool
         '''
         for node in fp2_nodes:
             item = getattr(node, "item", None)
-            if isinstance(node, PSyDataTrans._GOTO_STMTS) or (
+            if isinstance(node, PSyDataTrans._GOTO_STMTS +
+                          (Fortran2003.Return_Stmt,)) or (
                     item and item.label and str(item.label) in targets):
                 return True
             if isinstance(node, (Fortran2003.Exit_Stmt,
